@@ -394,7 +394,7 @@ pub fn run(ctx: &Ctx) -> (Stats, Spec) {
     }
     // diagrams with 2^16 .. 2^21 paths (the walk is per path: about a second for 2^21)
     let mp: Vec<(usize, usize)> = ctx.tier.pick(vec![(16, 0), (18, 1), (20, 2), (21, 3), (21, 0)], vec![(16, 0), (17, 3), (18, 1), (19, 2), (20, 2), (20, 1), (21, 3), (21, 0), (22, 1), (22, 2)]);
-    let parts = with_stderr_gagged(|| util::par_jobs(mp.len(), |j| { let mut s = Stats::new(); many_paths_case(&mut s, mp[j].0, mp[j].1, ctx.seed); s }));
+    let parts = with_stderr_gagged(|| util::par_jobs(mp.len(), |j| { let mut s = Stats::new(); engine_block(&mut s, "C20", "many-paths", |s2| many_paths_case(s2, mp[j].0, mp[j].1, ctx.seed)); s }));
     st.merge(crate::report::merge_all(parts));
     let wk_iters = ctx.tier.pick(3_000u64, 60_000u64);
     let parts = with_stderr_gagged(|| util::par_jobs(16, |job| super::weak::weak_hash_job(ctx, "C20", job, wk_iters)));
